@@ -10,6 +10,11 @@
         "valid"      Serialize(doc) for the document the response side was given
         "truncated"  a proper prefix of a serialisation that is not itself decodable   (json only)
         "badenc"     bytes that are not UTF-8 / not ASCII for forms
+        "hookfail"   a decodable body on which the handler itself fails with an exception that is NOT a
+                     media error (a user's handler class, or the documented JSONHandler(loads=partial(
+                     json.loads, object_hook=hook)) whose hook raises): AnyHandlerErrorIsCached - the
+                     SAME exception object is re-raised by later accesses, nothing is parsed again and
+                     a caller's default is not returned (the body was not empty)         (json only)
    The document is any JSON value, in particular the falsy ones (null, false, 0, "", [], {}):
    a cached value is recognised by the cache being SET, never by the value being truthy or
    non-null (CachedIsNotTruthiness).  `framing` says how the body length reaches the application:
@@ -48,12 +53,14 @@ Unset   == [k |-> "unset", ek |-> "none", v |-> "none"]
 Deserialize(hk, b) ==
     IF hk = "json" THEN (CASE b = "empty" -> Err("notfound")        \* MediaNotFoundError
                            [] b = "valid" -> Val("doc")             \* the round-trip law
+                           [] b = "hookfail" -> Err("custom")       \* whatever the handler raised
                            [] OTHER       -> Err("malformed"))      \* MediaMalformedError
     ELSE                (CASE b = "empty" -> Val("empty")           \* "an empty body will be parsed as an empty dict"
                            [] b = "valid" -> Val("doc")
                            [] OTHER       -> Err("malformed"))
 
-StatusOf(ek) == CASE ek = "notfound" -> 400 [] ek = "malformed" -> 400 [] ek = "unsupported" -> 415 [] OTHER -> 0
+StatusOf(ek) == CASE ek = "notfound" -> 400 [] ek = "malformed" -> 400 [] ek = "unsupported" -> 415
+                [] ek = "custom" -> 500 [] OTHER -> 0          \* a non-HTTP exception reaches the client as a 500
 
 (* out: "val" | "dflt" | "err";  same: the very object/error of the first answer;  touched: this
    access read from the body stream *)
@@ -64,6 +71,7 @@ TypeOK == /\ cache.k \in {"unset", "val", "err"} /\ parses \in 0..100 /\ consume
 
 Init == /\ stack \in Stacks /\ framing \in Framings[stack] /\ ctype \in CTypes /\ body \in BodyKinds
         /\ (HandlerOf[ctype] = "form" => body # "truncated")
+        /\ (body = "hookfail" => HandlerOf[ctype] = "json")
         /\ cache = Unset /\ consumed = FALSE /\ parses = 0
         /\ last = Rec("init", FALSE, "none", "none", "none", FALSE, FALSE)
 
@@ -115,6 +123,7 @@ EmptyIsDocumented   == (Called /\ body = "empty" /\ Handler = "json" /\ ~last.d)
 EmptyFormIsEmptyMapping == (Called /\ body = "empty" /\ Handler = "form") => (last.out = "val" /\ last.v = "empty")
 MalformedIs400Class == (Called /\ body \in {"truncated", "badenc"} /\ Handler # "none") =>
                            (last.out = "err" /\ last.ek = "malformed" /\ last.status = 400)
+CustomErrorIsKept   == (Called /\ body = "hookfail") => (last.out = "err" /\ last.ek = "custom" /\ last.same /\ parses = 1)
 RoundTrip           == (Called /\ body = "valid" /\ Handler # "none") => (last.out = "val" /\ last.v = "doc")
 UnsupportedIs415    == (Called /\ Handler = "none") => (last.out = "err" /\ last.status = 415 /\ parses = 0 /\ ~consumed)
 ===========================================================================
